@@ -21,6 +21,12 @@ reflexive ones) and the witnesses `implementer_reports_self`,
 true of the model, which mirrors the repaired code.  The full documented statement is now
 `introspect_implementer` / `implementer_empty_of_object`; the old behaviour is listed as `fixed` in
 `known_findings.json`, so its return is a VIOLATION.
+
+History — F-C20-1 (fixed by de-duplicating the `Multiple` candidate in `vertex_type_iter`): a name
+listed twice in a `one_of` argument used to make its vertex type and all rows under it appear twice;
+this file then carried `introspect_one_of` as "one block of rows per list element",
+`introspect_one_of_partial` under `ns.Nodup` and the witness `one_of_duplicates_rows`.  Now
+`introspect_one_of` is the full statement for every list.
 -/
 import TrustfallModel.Proofs.SchemaAdapter
 import TrustfallModel.Proofs.SchemaExamples
@@ -74,24 +80,14 @@ theorem introspect_by_name {doc : Doc} {s : Schema} (h : Accepted doc s) (n : Na
       .ok (((listed doc s.queryType.name).filter (fun t => t.name == n)).flatMap propertyRowsNoDocs) :=
   introspect_byName_eq h.facts n
 
-/-- **`one_of` on `name`** (what the code does): with a `Multiple` candidate `vertex_type_iter`
-yields one vertex per *element* of the argument list, so the rows are one block per element — a name
-listed twice is reported twice (F-C20-1, `one_of_duplicates_rows`). -/
+/-- **`one_of` on `name`**: for every argument list — repeated names included — the rows are, up to
+order, those of the listed types whose name is in the list: what the `one_of` filter over all vertex
+types selects (the `Multiple`-candidate shortcut of `vertex_type_iter` is sound). -/
 theorem introspect_one_of {doc : Doc} {s : Schema} (h : Accepted doc s) (ns : List Name) :
-    introspect s (.oneOf ns) =
-      .ok ((ns.flatMap fun n => (listed doc s.queryType.name).filter (fun t => t.name == n)).flatMap
-        propertyRowsNoDocs) :=
-  introspect_oneOf_eq h.facts ns
-
-/-- **`one_of`, partial**: for a duplicate-free argument list the rows are, up to order, those of the
-listed types whose name is in the list — what the `one_of` filter over all vertex types selects. -/
-theorem introspect_one_of_partial {doc : Doc} {s : Schema} (h : Accepted doc s) (ns : List Name)
-    (hnd : ns.Nodup) :
     ∃ rows, introspect s (.oneOf ns) = .ok rows ∧
       rows.Perm (((listed doc s.queryType.name).filter (fun t => ns.contains t.name)).flatMap
-        propertyRowsNoDocs) := by
-  refine ⟨_, introspect_one_of h ns, ?_⟩
-  exact (oneOf_blocks_perm _ ns hnd).flatMap_right _
+        propertyRowsNoDocs) :=
+  introspect_oneOf_perm h.facts ns
 
 /-- **`implementer`** (the documented relation, in full): the rows are, up to order, one per pair
 `(t, x)` where `x` lists `t` in its `implements` — the subtypes of `t`, the `implements` lists of a
@@ -137,9 +133,9 @@ def countStrRows (o : Outcome (List Row)) (k1 v1 k2 v2 : String) : Nat :=
       r.any (fun c => c.1 == k2 && match c.2 with | .str x => x == v2 | _ => false)).length
   | .panic _ => 0
 
-/-- F-C20-1: `one_of ["A", "A"]` reports property `x` of `A` twice, `one_of ["A"]` once. -/
-theorem one_of_duplicates_rows :
-    countStrRows (introspectDoc small (.oneOf ["A", "A"])) "name" "A" "property" "x" = 2 ∧
+/-- After the repair of F-C20-1, `one_of ["A", "A"]` reports property `x` of `A` once, like `["A"]`. -/
+theorem one_of_repeated_name_once :
+    countStrRows (introspectDoc small (.oneOf ["A", "A"])) "name" "A" "property" "x" = 1 ∧
     countStrRows (introspectDoc small (.oneOf ["A"])) "name" "A" "property" "x" = 1 := by decide
 
 end Witness
@@ -190,8 +186,7 @@ end TF.C20
 #print axioms TF.C20.introspect_entrypoint_params
 #print axioms TF.C20.introspect_by_name
 #print axioms TF.C20.introspect_one_of
-#print axioms TF.C20.introspect_one_of_partial
-#print axioms TF.C20.one_of_duplicates_rows
+#print axioms TF.C20.one_of_repeated_name_once
 #print axioms TF.C20.introspect_implementer
 #print axioms TF.C20.implementer_empty_of_object
 #print axioms TF.C20.object_type_has_no_implementer
